@@ -3,6 +3,11 @@
    two blocks, tip not in the future), holds exactly C after at most 1 + ceil (|C| / (page size - 1))
    sync rounds, with the same spendable outputs and registered addresses as the serving node,
    provided the page size is at least 3."
+   The validation interval must be positive: verify ends with AddBlock of a block dated one interval
+   after the last answered block (blockchain.go:358-363), and AddBlock refuses a block that is not
+   dated after the tip, so with an interval <= 0 no answer is ever accepted (C04_verified_interval_pos)
+   and a node that is behind stays behind. The theorems that derive an adoption carry the hypothesis
+   0 < s_interval; those saying that a node already holding C keeps it do not need it.
    The paging half (Blockchain.Blocks) is props/C08.v. This file is about Blockchain.Update
    (blockchain.go:99-266; model/Sync.v [update], model/Chain.v [verify]).
 
@@ -45,6 +50,7 @@ Theorem C08_verify_prefix_page :
   forall (value_fn : N -> bool -> Z -> N) (addr_of : string -> string) (sig_ok : input -> bool)
          (H : block -> hash) (Se : settings) (st : cstate) (now : Z) (C old : list block)
          (tip : block) (Q T : list block) (a : areg),
+    (0 < s_interval Se)%Z ->
     chain_linked H C ->
     (exists (u : ureg) (a0 : areg), replay C = Ok (u, a0)) ->
     page_verifiable value_fn addr_of sig_ok Se now C ->
@@ -58,6 +64,7 @@ Theorem C08_verify_full_page :
   forall (value_fn : N -> bool -> Z -> N) (addr_of : string -> string) (sig_ok : input -> bool)
          (H : block -> hash) (Se : settings) (st : cstate) (now : Z) (C lh : list block)
          (g b1 : block) (Q T : list block),
+    (0 < s_interval Se)%Z ->
     chain_linked H C -> genesis_rooted C ->
     (exists (u : ureg) (a : areg), replay C = Ok (u, a)) ->
     page_verifiable value_fn addr_of sig_ok Se now C ->
@@ -70,6 +77,7 @@ Theorem C08_round_extends_prefix :
   forall (value_fn : N -> bool -> Z -> N) (addr_of : string -> string) (sig_ok : input -> bool)
          (H : block -> hash) (Se : settings) (st : cstate) (now : Z) (nbs : list neighbor)
          (pref : string) (C P R : list block),
+    (0 < s_interval Se)%Z ->
     servable value_fn addr_of sig_ok H Se now C ->
     C = P ++ R -> R <> [] -> chain st = P -> 2 < length P ->
     denotes P (ur st) (ar st) ->
@@ -99,6 +107,7 @@ Theorem C08_round_full_adopts :
   forall (value_fn : N -> bool -> Z -> N) (addr_of : string -> string) (sig_ok : input -> bool)
          (H : block -> hash) (Se : settings) (st : cstate) (now : Z) (nbs : list neighbor)
          (pref : string) (C : list block),
+    (0 < s_interval Se)%Z ->
     servable value_fn addr_of sig_ok H Se now C ->
     1 <= length (chain st) <= 2 -> length (chain st) < length C ->
     (3 <= s_limit Se)%N -> (N.of_nat (length C) + s_limit Se <= two64)%N ->
@@ -126,6 +135,7 @@ Proof. exact round_full_stable. Qed.
 Theorem C08_rounds_converge :
   forall (value_fn : N -> bool -> Z -> N) (addr_of : string -> string) (sig_ok : input -> bool)
          (H : block -> hash) (Se : settings) (C : list block) (now0 : Z),
+    (0 < s_interval Se)%Z ->
     servable value_fn addr_of sig_ok H Se now0 C ->
     (3 <= s_limit Se)%N -> (N.of_nat (length C) + s_limit Se <= two64)%N ->
     forall (n : nat) (st st' : cstate),
@@ -141,6 +151,7 @@ Proof. exact rounds_converge. Qed.
 Theorem C08_rounds_converge_ceil :
   forall (value_fn : N -> bool -> Z -> N) (addr_of : string -> string) (sig_ok : input -> bool)
          (H : block -> hash) (Se : settings) (C : list block) (now0 : Z) (st st' : cstate),
+    (0 < s_interval Se)%Z ->
     servable value_fn addr_of sig_ok H Se now0 C ->
     (3 <= s_limit Se)%N -> (N.of_nat (length C) + s_limit Se <= two64)%N ->
     prefix (chain st) C -> 2 < length (chain st) ->
@@ -161,6 +172,7 @@ Proof. exact ceil_div_least. Qed.
 Theorem C08_sync_converges :
   forall (value_fn : N -> bool -> Z -> N) (addr_of : string -> string) (sig_ok : input -> bool)
          (H : block -> hash) (Se : settings) (C : list block) (now0 : Z),
+    (0 < s_interval Se)%Z ->
     servable value_fn addr_of sig_ok H Se now0 C ->
     (3 <= s_limit Se)%N -> (N.of_nat (length C) + s_limit Se <= two64)%N ->
     2 <= length C ->
@@ -183,6 +195,7 @@ Theorem C08_sync_converges_reach :
          (srv n0 : node),
     reach value_fn addr_of sig_ok H gen_id Se validator' srv -> chain (n_c srv) = C ->
     reach value_fn addr_of sig_ok H gen_id Se validator n0 ->
+    (0 < s_interval Se)%Z ->
     servable value_fn addr_of sig_ok H Se now0 C ->
     (3 <= s_limit Se)%N -> (N.of_nat (length C) + s_limit Se <= two64)%N ->
     2 <= length C ->
@@ -208,6 +221,9 @@ Example C08_ex_settings :
   (3 <= s_limit ConvergeExample.S3)%N /\
   (N.of_nat (length ConvergeExample.CC) + s_limit ConvergeExample.S3 <= two64)%N.
 Proof. exact ConvergeExample.ex_settings. Qed.
+
+Example C08_ex_interval : (0 < s_interval ConvergeExample.S3)%Z.
+Proof. reflexivity. Qed.
 
 (* a node holding the genesis block only: a full round (3 blocks), an incremental round (5) *)
 Example C08_ex_rounds :
